@@ -1077,6 +1077,12 @@ fn ask_from_json(j: &serde_json::Value) -> Option<Ask> {
                 }
             }
         }
+        // (round 17) a bare right-to-left-listed language
+        for (lt, expect) in bare_rtl_langs() {
+            if lt == id {
+                return bare_dir_ask(lt, expect);
+            }
+        }
     }
     None
 }
